@@ -63,16 +63,19 @@ Theorem C02_refused_request_changes_nothing : forall ctl t os r t' os', do_req c
 Proof. exact control_refusal_leaves_placed_orders. Qed.
 Print Assumptions C02_refused_request_changes_nothing.
 
-(* still REFUTED (finding F-C02-2): placing an order that is already in the blotter sets it PENDING and only then raises. *)
+(* placing an order that is already in the blotter raises and changes no order's status (only update_client has run).  REFUTED on the
+   pinned tree (finding F-C02-2: order.place() ran first and left the resting order PENDING); holds since the repair (fix: 5dd0b89). *)
+Theorem C02_place_of_placed_order : forall ctl t os name mv ex force o t' os' res,
+  tget name os = Some o -> to_in_blotter o = true -> (ex && negb force && negb ctl) = false ->
+  do_req ctl t os (TPlace name mv ex force) = (t', os', res) -> res = TRaisedPlaced /\ t' = t /\ map to_status os' = map to_status os.
+Proof. exact place_of_placed_order_changes_no_status. Qed.
+Print Assumptions C02_place_of_placed_order.
 Definition c02_live : tord := {| to_name := 1; to_status := SExecutable; to_bet := true; to_type := TLimit; to_persist := PLapse; to_price := 20000;
                                  to_remaining := 500; to_in_blotter := true; to_client := 0; to_red := None; to_newprice := None; to_ctx := true |}.
-Theorem C02_refused_noop_refuted :
-  (let '(_, os', res) := do_req true (txn0 0) [c02_live] (TPlace 1 None true false) in (map to_status os', res)) = ([SPending], TRaisedPlaced).
-Proof. vm_compute. reflexivity. Qed.
 Example C02_refused_request_example :
-  (let '(_, os', res) := do_req false (txn0 0) [c02_live] (TCancel 1 None false) in (map to_status os', res)) = ([SExecutable], TRefused).
-Proof. vm_compute. reflexivity. Qed.
-Print Assumptions C02_refused_noop_refuted.
+  (let '(_, os', res) := do_req false (txn0 0) [c02_live] (TCancel 1 None false) in (map to_status os', res)) = ([SExecutable], TRefused) /\
+  (let '(_, os', res) := do_req true (txn0 0) [c02_live] (TPlace 1 None true false) in (map to_status os', res)) = ([SExecutable], TRaisedPlaced).
+Proof. vm_compute. split; reflexivity. Qed.
 
 (* the per-call limits are regenerated from the source (betfairlightweight order_limits) *)
 From V Require Import Gen.TxnC.
